@@ -314,6 +314,9 @@ struct DecOut {
     unit_count: Option<u64>,
 }
 
+/// Set while the driver calls a reader again after it returned an error (value: that error).
+static AFTER_ERR: Mutex<Option<String>> = Mutex::new(None);
+
 /// Consecutive `Interrupted` results of the reader under test before the case is reported as stuck.
 const INTR_STUCK: u64 = 10_000;
 
@@ -361,14 +364,20 @@ fn drive<R: Read>(r: &mut R, bufs: &[usize], limit: u64, acc: &mut OutAcc, buf: 
                 o.outcome = "err";
                 o.err = Some((kind_name(e.kind()), e.to_string()));
                 if probe {
-                    for _ in 0..2 {
+                    // callers do call again after an error (retry loops, read_to_end wrappers, BufReader): one call with a
+                    // small and one with a large buffer, under the same containment; a panic here is reported with
+                    // `after_err` = the error that preceded it
+                    *AFTER_ERR.lock().unwrap_or_else(|e| e.into_inner()) = o.err.as_ref().map(|(k, m)| format!("{k}: {m}"));
+                    let full = buf.len();
+                    for size in [1usize, full] {
                         o.reads_after_err += 1;
-                        if let Ok(k) = r.read(&mut buf[..n]) {
+                        if let Ok(k) = r.read(&mut buf[..size]) {
                             if k > 0 {
                                 o.ok_after_err = true;
                             }
                         }
                     }
+                    *AFTER_ERR.lock().unwrap_or_else(|e| e.into_inner()) = None;
                 }
                 return o;
             }
@@ -551,6 +560,9 @@ fn decode_case(job: &Job, bases: &Bases) -> Value {
         }
         Err(_) => {
             let (pm, th) = take_panic().unwrap_or(("?".into(), "?".into()));
+            if let Some(e) = AFTER_ERR.lock().unwrap_or_else(|e| e.into_inner()).take() {
+                m.insert("after_err".into(), json!(e));
+            }
             if pm.contains(faultio::SPIN_MARK) || pm.contains(faultio::OPS_MARK) {
                 m.insert("o".into(), json!("spin"));
             } else {
